@@ -99,7 +99,15 @@ func (g *vgen) leaf() *Val {
 		t := r.pick([]string{"string", "string", "string", "MyStr", "SvStr", "RegStr", "SafeString"})
 		return &Val{K: "s", GoT: t, S: g.str()}
 	case 11:
-		v := &Val{K: "bs", GoT: r.pick([]string{"[]byte", "[]byte", "MyBytes"}), S: g.str(), Nil: r.coin(1, 8)}
+		v := &Val{K: "bs", GoT: r.pick([]string{"[]byte", "[]byte", "MyBytes", "[4]byte"}), S: g.str(), Nil: r.coin(1, 8)}
+		if v.GoT == "[4]byte" {
+			// a byte ARRAY (passed by value: not addressable): exactly four bytes
+			b := append([]byte(v.S), 'p', 'a', 'd', '!')[:4]
+			if g.validUtf8 && !utf8.Valid(b) {
+				b = []byte("ab\ncd")[:4]
+			}
+			v.S, v.Nil = string(b), false
+		}
 		if v.Nil {
 			v.S = ""
 		}
